@@ -42,6 +42,10 @@ type Compiler struct {
 	currScope       *map[string]string
 	currModule      string
 	lambdaCount     uint
+	// Root scope (globals, singletons and imported globals) of every module.
+	moduleScopes map[string]map[string]string
+	// Functions which a module imports from other Homescript modules: local name -> mangled function.
+	importedFns map[string]map[string]string
 	// Number of try blocks of the current function which enclose the code that is currently compiled.
 	// A `return`, `break` or `continue` which leaves them must also remove their exception labels.
 	tryDepth int
@@ -67,6 +71,8 @@ func NewCompiler(program map[string]ast.AnalyzedProgram, entryPointModule string
 		currScope:       currScope,
 		currModule:      "",
 		currFn:          "",
+		moduleScopes:    make(map[string]map[string]string),
+		importedFns:     make(map[string]map[string]string),
 		// Program source.
 		analyzedSource:   program,
 		entryPointModule: entryPointModule,
@@ -129,6 +135,9 @@ func (self *Compiler) compileProgram(
 	for moduleName, module := range program {
 		self.currModule = moduleName
 		self.modules[self.currModule] = make(map[string]*Function)
+
+		// Every module has its own root scope: a global is only visible in the module which defines or imports it.
+		self.enterModuleScope(moduleName)
 
 		initFn := self.mangleFn(InitFunctionIdent)
 		self.addFn(InitFunctionIdent, initFn)
@@ -205,10 +214,14 @@ func (self *Compiler) compileProgram(
 	// 	}
 	// }
 
+	// Now that the globals and functions of all modules are known, bind the imported names to their definitions.
+	self.linkImports(program)
+
 	moduleAnnotations := make(ModuleAnnotations)
 
 	for moduleName, module := range program {
 		self.currModule = moduleName
+		self.enterModuleScope(moduleName)
 
 		// Compile all functions
 		var mainFnSpan errors.Span
